@@ -39,4 +39,8 @@ let dispatch (op : string) (a : string list) : string list =
   | "nl2br", [s] -> [hex_of_bstr (change_newline_to_br (bstr_of_hex s))]
   | "escape_uri", [s] -> [hex_of_bstr (escape_uri (bstr_of_hex s))]
   | "remove_tok", [t; s] -> [hex_of_bstr (remove_tok (bstr_of_hex t) (bstr_of_hex s))]
-  | _ -> Ops_ext.dispatch op a
+  | _ -> failwith ("unknown op or wrong arity: " ^ op)
+
+let () = List.iter (fun n -> register n (dispatch n))
+  ["ping"; "untranslatable"; "html_escape"; "esc_writes"; "tmpl_html_escape"; "html_decode"; "escape_decision"; "modes";
+   "print"; "decode_rune"; "encode_rune"; "utf8_valid"; "truncate"; "iwb"; "nl2br"; "escape_uri"; "remove_tok"]
